@@ -40,7 +40,9 @@ type c10Scenario struct {
 	LatencyNs          int64      `json:"latency_ns"`
 	ResumeDropFirst    bool       `json:"first_resumption_attempt_loses_its_connection,omitempty"` // with loss_and_resumption_at_the_end: the connection of the first attempt breaks while the answer to <resume/> is awaited
 	ResumeAtEnd        bool       `json:"loss_and_resumption_at_the_end,omitempty"`                // the session is lost and resumed; <resumed/> repeats the last acknowledged h
-	RawExtras          bool       `json:"raw_white_space_and_two_stanza_strings,omitempty"`        // among the sends: SendRaw of white space (not a stanza) and of a string with two stanzas (two stanzas)
+	ResumeFailEarly    string     `json:"an_attempt_fails_before_resume_is_sent,omitempty"`
+	Twins              bool       `json:"two_identical_stanzas_in_a_row_first,omitempty"`
+	RawExtras          bool       `json:"raw_white_space_and_two_stanza_strings,omitempty"` // among the sends: SendRaw of white space (not a stanza) and of a string with two stanzas (two stanzas)
 }
 
 func init() {
@@ -57,13 +59,18 @@ func init() {
 func runC10(e *Engine, g G, o RunOpt) RunInfo {
 	sc := &c10Scenario{Client: DefaultClientOpts()}
 	sc.Client.SM = true
+	sc.Twins = g.Pct("twins", 20)
+	failedEarly := false
 	sc.RawExtras = !o.Avoiding("raw-string-not-one-stanza") && g.Pct("raw-extras", 35)
 	sc.Client.SMResume = true
 	if g.Pct("after-refused-resume", 20) {
 		sc.AfterRefusedResume = g.Range("old-held", 1, 4)
 	}
-	sc.ResumeAtEnd = g.Pct("resume-at-end", 25)
+	sc.ResumeAtEnd = g.Pct("resume-at-end", 35)
 	sc.ResumeDropFirst = sc.ResumeAtEnd && g.Pct("resume-drop-first", 40)
+	if sc.ResumeAtEnd && !sc.ResumeDropFirst && g.Pct("resume-fail-early", 50) {
+		sc.ResumeFailEarly = []string{"auth-close", "header-close", "header-after-auth-close"}[g.N("resume-fail-early-at", 3)]
+	}
 	ns := g.Range("nsteps", 2, 8)
 	for i := 0; i < ns; i++ {
 		switch g.Weighted("step", 5, 5, 1, 2, 1) {
@@ -336,6 +343,51 @@ func runC10(e *Engine, g G, o RunOpt) RunInfo {
 			accepted["<presence/>"] = nAccepted
 			e.Probe("c10.initial_presence_held")
 		}
+		if sc.Twins {
+			// Two byte-identical stanzas in a row (two pings, two presences) are two stanzas: both are
+			// held, both are counted. Played first and acknowledged in full before the generic history
+			// goes on, so that the payload-keyed model below never sees a held duplicate.
+			twin := "<iq id='ping' type='get'><ping xmlns='urn:xmpp:ping'/></iq>"
+			if sc.Steps != nil && len(sc.Steps)%2 == 1 {
+				twin = "<presence/>"
+			}
+			last := fmt.Sprintf("<message id='after-twins' to='peer@%s'><body>last</body></message>", SimDomain)
+			for i, raw := range []string{twin, twin, last} {
+				raw := raw
+				if err, _ := e.Call(fmt.Sprintf("SendRaw twin#%d", i), func() error { return cli.SendRaw(raw) }); err == nil {
+					nAccepted++
+					accepted[raw] = nAccepted
+				}
+			}
+			e.Sleep(time.Second)
+			w := wire()
+			if raws, _ := queue(); len(w) >= 3 && strings.Join(raws, "\x00") != strings.Join(w, "\x00") {
+				e.Violate("C10", "identical-stanza-not-held", "sent in a row: %s; on the wire since <enabled/>: %s; held: %s", shortStz([]string{twin, twin, last}), shortStz(w), shortStz(raws))
+			}
+			if len(w) >= 3 && len(e.Violations) == 0 {
+				// the server has handled everything up to the first twin
+				h := len(w) - 2
+				before := len(conn.Recv)
+				conn.Send(fmt.Sprintf("<a xmlns='%s' h='%d'/>", nsSM, h))
+				maxH, lastH, sentH = h, h, h
+				e.Sleep(2 * time.Second)
+				want := []string{twin, last, "<r/>"}
+				if got := tail(before); strings.Join(got, "\x00") != strings.Join(want, "\x00") {
+					e.Violate("C10", "retransmission-wrong:identical-stanzas", "two identical stanzas and a third were sent, <a h=%d/> covers the first: the server received %s, expected %s", h, shortStz(got), shortStz(want))
+				}
+				if raws, _ := queue(); strings.Join(raws, "\x00") != strings.Join(want[:2], "\x00") {
+					e.Violate("C10", "identical-stanza-not-held", "after <a h=%d/> covering the first of two identical stanzas: held %s, expected %s", h, shortStz(raws), shortStz(want[:2]))
+				}
+				h = len(wire())
+				conn.Send(fmt.Sprintf("<a xmlns='%s' h='%d'/>", nsSM, h))
+				maxH, lastH, sentH = h, h, h
+				e.Sleep(2 * time.Second)
+				if raws, _ := queue(); len(raws) != 0 {
+					e.Violate("C10", "acknowledged-stanza-still-held", "after <a h=%d/> covering everything sent (identical stanzas among it): still held %s", h, shortStz(raws))
+				}
+				e.Probe("c10.identical_stanzas_in_a_row")
+			}
+		}
 		n := 0
 		for si, st := range sc.Steps {
 			switch st.Op {
@@ -573,8 +625,37 @@ func runC10(e *Engine, g G, o RunOpt) RunInfo {
 					s.Srv.Scripts[len(s.Srv.Conns)] = okScript
 					e.Probe("c10.resumption_attempt_lost_its_connection")
 				}
+				if sc.ResumeFailEarly != "" {
+					// an attempt that fails before <resume/> is even sent (the server hangs up during the
+					// negotiation): nothing was refused, nothing acknowledged - what is held stays held and
+					// the next attempt resumes
+					bad := okScript
+					switch sc.ResumeFailEarly {
+					case "auth-close":
+						bad.AuthReply = AuthClose
+					case "header-close":
+						bad.Header = HdrClose
+					default:
+						bad.Header3 = HdrClose
+					}
+					s.Srv.Scripts[len(s.Srv.Conns)] = bad
+					ferr, _ := e.Call("Resume (server hangs up at "+sc.ResumeFailEarly+")", s.W.Client.Resume)
+					e.Sleep(time.Duration(sc.Client.ConnectTimeout+2) * time.Second)
+					for len(s.Srv.Scripts) <= len(s.Srv.Conns) {
+						s.Srv.Scripts = append(s.Srv.Scripts, okScript)
+					}
+					s.Srv.Scripts[len(s.Srv.Conns)] = okScript
+					if ferr != nil {
+						failedEarly = true
+						e.Probe("c10.attempt_failed_before_resume")
+					}
+				}
 				nc := len(s.Srv.Conns)
 				err, _ := e.Call("Resume", s.W.Client.Resume)
+				if failedEarly && err == nil && len(s.Srv.Conns) == nc+1 && s.Srv.Conns[nc].Established != "resumed" {
+					got, _ := queue()
+					e.Violate("C10", "held-stanzas-lost-by-failed-attempt", "a reconnection attempt failed before <resume/> was sent (%s); the next one, to a server that would have resumed the session, established %q; held before %s, now %s", sc.ResumeFailEarly, s.Srv.Conns[nc].Established, shortStz(want), shortStz(got))
+				}
 				// (C11 counts a connection closed in answer to <resume/> among the replies after which the
 				// state is discarded: whether the held stanzas survive such an attempt is not asserted here)
 				if err == nil && len(s.Srv.Conns) == nc+1 && s.Srv.Conns[nc].Established == "resumed" {
